@@ -85,7 +85,7 @@ const OPTS: &[Opt] = &[
     Opt { key: "trusted_keys", file_path: Some("crypto.trusted-keys"), cli: "--trusted-key", kind: Kind::List, default: "", values: [("ftrust", "ctrust"), ("a", "b")] },
     Opt { key: "algorithms", file_path: Some("crypto.algorithms"), cli: "--algorithm", kind: Kind::Replace, default: "", values: [("aes128", "chacha20"), ("plain", "aes256")] },
     Opt { key: "hook", file_path: Some("hook"), cli: "--hook", kind: Kind::OptStr, default: "", values: [("fhook", "chook"), ("a", "b")] },
-    Opt { key: "hooks", file_path: Some("hooks"), cli: "--hook", kind: Kind::HookMap, default: "", values: [("peer_connected=fscript", "peer_connected:cscript"), ("vpn_started=fs", "vpn_shutdown:cs")] },
+    Opt { key: "hooks", file_path: Some("hooks"), cli: "--hook", kind: Kind::HookMap, default: "", values: [("peer_connected=fscript", "peer_connected:cscript"), ("vpn_started=fs -x a:b", "vpn_shutdown:curl -s http://127.0.0.1:8080/down")] },
 ];
 
 /// (file value, command-line value) of value variant 0, 1 (the table) or 2 (the SAME value in both sources: a list then holds
